@@ -85,3 +85,22 @@ func TestVerifWitness_C08_text_commodity_range_end(t *testing.T) {
 	}
 	fmt.Println("WITNESS-HOLDS")
 }
+
+// C08 parser.parseTags#ensures.tag_inside_one_part: a tag's range lies in the comma-separated part the tag was read from;
+// before the repair the tag was searched for from the end of the previous tag, so a part that is not a tag but contains
+// "name:" ("x a:1") captured the range of a later tag of that name.
+func TestVerifWitness_C08_tag_range_in_its_own_part(t *testing.T) {
+	for _, text := range []string{" x a:1, a:2", " (ba:), a:2"} {
+		tags := parseTags(text, Position{Line: 1, Column: 15, Offset: 14})
+		if len(tags) != 1 {
+			fmt.Printf("WITNESS-HOLDS (unexpected tag count %d)\n", len(tags))
+			return
+		}
+		got := text[tags[0].Range.Start.Offset-15 : tags[0].Range.End.Offset-15]
+		if got != "a:2" {
+			fmt.Printf("WITNESS-FAILS comment text %q: the range of tag %s=%s covers %q, the tag is written \"a:2\"\n", text, tags[0].Name, tags[0].Value, got)
+			return
+		}
+	}
+	fmt.Println("WITNESS-HOLDS")
+}
